@@ -349,3 +349,41 @@ func CheckTunnelShape(body []byte, ref TunnelRef) (iv []byte, why string) {
 	}
 	return ivn.Bytes, ""
 }
+
+// TakeOver forges an entry chain from genuine encoded entries: entries [0,p) are kept, entry p keeps
+// the genuine PreviousHash / HeaderHash / Extra but names pub (the attacker's key) and is signed by
+// signedBy (anybody but the legitimate holder of the key named by entry p-1), and `tail` further
+// entries are appended that are correctly hashed, name pub again and are signed by the attacker —
+// so every link except link p is formally valid. Later genuine entries are dropped.
+func TakeOver(entries [][]byte, p int, pub *refcbor.Node, signedBy crypto.Signer, signedByAlg int64, attacker crypto.Signer, attackerAlg int64, tail int) ([][]byte, error) {
+	if p < 0 || p >= len(entries) {
+		return nil, fmt.Errorf("no entry %d", p)
+	}
+	e, err := refverify.ParseEntry(entries[p])
+	if err != nil {
+		return nil, err
+	}
+	pl, err := refcbor.ParseAll(e.Sign1.Payload)
+	if err != nil {
+		return nil, err
+	}
+	pl = refcbor.Clone(pl)
+	pl.Items[3] = pub
+	forged, err := Sign1(signedBy, signedByAlg, nil, nil, refcbor.EncodeKeepOrder(pl), true)
+	if err != nil {
+		return nil, err
+	}
+	out := append([][]byte{}, entries[:p]...)
+	out = append(out, refcbor.EncodeKeepOrder(forged))
+	for i := 0; i < tail; i++ {
+		prev := out[len(out)-1]
+		npl := refcbor.Clone(pl)
+		npl.Items[0] = HashNode(e.PrevHash.Alg, prev)
+		n, err := Sign1(attacker, attackerAlg, nil, nil, refcbor.EncodeKeepOrder(npl), true)
+		if err != nil {
+			return nil, err
+		}
+		out = append(out, refcbor.EncodeKeepOrder(n))
+	}
+	return out, nil
+}
